@@ -2,49 +2,39 @@ import Duckling.Model.Compile
 import Duckling.Spec.Ducky
 import Duckling.Lemmas.SimplePre
 import Duckling.Lemmas.Digits
+import Duckling.Lemmas.LegalBase
+import Duckling.Lemmas.Legal
 /-
   C02 — validated commands never emit an illegal line.
 
-  `Spec.legalLine` (frozen, from the documented line language) says which lines are legal for the commands
-  DucklingScript validates.  The theorems are about `compileSimple`, i.e. about *every* delivery form at once
-  (inline, grouped block, first argument + group, `$`-evaluated — hence also variables, function parameters and
-  loop counters, which are just expressions): whatever `simplePre` accepted satisfies the hooks (`simplePre_spec`).
+  `Spec.legalLine` (frozen, from the documented line language; Spec/Ducky.lean) says which lines are legal for the commands
+  DucklingScript validates.  Helper lemmas are in Lemmas/LegalBase and Lemmas/Legal; the generic invariant walk in Lemmas/Hered.
 
-  * `C02_spec_covers_code`     every key name the code accepts for ALT / CTRL / SHIFT is a documented key of that modifier,
-                                and the validated classes' names are the documented command names (table facts, re-checked on every run);
-  * `C02_multi_invariant`      every line `__multi_comp` emits satisfies `P` if every single `run_compile` call's lines do;
-  * `C02_delay_legal`          DELAY / DEFAULT_DELAY emit `NAME <non-negative integer literal>` — never a negative, fractional,
-                                boolean or string argument, however delivered;
-  * `C02_noarg_legal`          ENTER, arrow keys, extended keys, MENU emit the bare name (ENTER evaluated with a count emits bare ENTER lines);
-  * `C02_modifier_legal`       ALT / CTRL / CONTROL / SHIFT / GUI / WINDOWS / META emit nothing but the name, the name plus one
-                                character (not SHIFT), or the name plus a listed key in any letter case;
-  * `C02_altchar_legal`        ALTCHAR emits a 1–4 digit code; `C02_flipper_mod_legal` the Flipper modifiers and SYSRQ one character or nothing.
-  The lifting to whole programs ("no DucklingScript-only keyword is emitted without a warning or IGNORE")
-  is validated by the oracle on generated programs, not proved — `partial` in that respect.
+  * `C02_spec_covers_code`      names, accepted keys, argument types and hooks of the validating classes are the documented ones
+                                 (table facts, re-checked against the regenerated palette on every run);
+  * `C02_multi_invariant`       every line `__multi_comp` emits satisfies `P` if every single `run_compile` call's lines do;
+  * `C02_line_arg` / `_bare`    an output line is judged by the argument grammar of its first word;
+  * `C02_delay_legal` / `C02_delay_hook` / `C02_noarg_legal` / `C02_modifier_legal`   the per-family facts;
+  * `C02_delay_class`           DELAY / DEFAULT_DELAY through `SimpleCommand.compile`, every delivery form;
+  * `C02_every_emission_legal`  **every simple class of the palette and the unknown-command pass-through, every delivery form**
+                                 (inline, grouped, first argument + group, `$`-evaluated — hence variables, parameters, loop
+                                 counters): whatever `simplePre` accepted, each line the command emits by itself is legal.
+                                 Proving it exposed `$ALTCHAR " 12"` → `ALTCHAR  12` in the code (repaired: fix: 34e4a37);
+  * `C02_exec_output_legal`     **whole programs**: if no line of the code that can run (program, functions in the environment,
+                                 files on disk) is an IGNORE line, every output line of a successful run is legal — any depth,
+                                 context, state (hereditary walk over the whole interpreter);
+  * `C02_compile_output_legal`  the same for `Compiler.compile`.
+  Not proved: the third sentence of the property (no DucklingScript-only keyword / `$` name is emitted when no unknown-command
+  warning is raised) — decided by the oracle on generated programs and by the correspondence; `partial` in that respect.
 -/
 namespace Duckling.Props.C02
-open Duckling Duckling.Spec
+open Duckling Duckling.Spec Duckling.Legal
 
-/-- table checks: names and accepted keys of the modifier classes are documented ones -/
-def altTableOk : Bool := Generated.palette.all fun c => c.cname != "Alt" || (c.names == ["ALT"] && c.params.all (altKeys.contains ·))
-def ctrlTableOk : Bool := Generated.palette.all fun c => c.cname != "Ctrl" || (c.names == ["CTRL", "CONTROL"] && c.params.all (ctrlKeys.contains ·))
-def shiftTableOk : Bool := Generated.palette.all fun c => c.cname != "Shift" || (c.names == ["SHIFT"] && c.params.all (shiftKeys.contains ·))
-def guiTableOk : Bool := Generated.palette.all fun c => c.cname != "Gui" || c.names == ["GUI", "WINDOWS", "META"]
-
-/-- table check: the other validated classes -/
-def validatedTableOk : Bool :=
-  Generated.palette.all fun c =>
-    (c.cname != "Delay" || (c.names == ["DELAY"] && c.argType == .int && c.hooks.contains "verify_arg" && !c.hooks.contains "run_compile")) &&
-    (c.cname != "DefaultDelay" || (c.names == ["DEFAULT_DELAY", "DEFAULTDELAY"] && c.argType == .int && c.hooks.contains "verify_arg")) &&
-    (!(["ArrowKeys", "Extended", "Menu"].contains c.cname) || (c.argReq == .notAllowed && c.hooks == [] && c.names.all (noArgKeys.contains ·))) &&
-    (c.cname != "Enter" || (c.names == ["ENTER"] && c.argType == .int)) &&
-    (c.cname != "FlipperAltChar" || (c.names == ["ALTCHAR"] && c.hooks.contains "verify_arg" && c.strip)) &&
-    (!(["FlipperModifierKeys", "FlipperSysrq"].contains c.cname) || (c.hooks.contains "verify_arg" && c.names.all (oneCharOrBare.contains ·)))
-
+/-- table checks (definitions in Lemmas/LegalBase): names and accepted keys of the modifier classes are documented ones;
+    the other validated classes have the documented names, argument types and hooks -/
 theorem C02_spec_covers_code :
-    altTableOk = true ∧ ctrlTableOk = true ∧ shiftTableOk = true ∧ guiTableOk = true ∧ validatedTableOk = true := by decide
-
-theorem keys_are_upper : ∀ k ∈ altKeys ++ ctrlKeys ++ shiftKeys, upper k.toList = k.toList := by decide
+    altTableOk = true ∧ ctrlTableOk = true ∧ shiftTableOk = true ∧ guiTableOk = true ∧ validatedTableOk = true :=
+  spec_covers_code
 
 /-- every line `__multi_comp` emits satisfies `P` if the lines of every `run_compile` call do -/
 theorem C02_multi_invariant (P : Str → Prop) (child : Option ChildFn) (ctx : Ctx) (c : ClsDesc) (name : Str) (line : Nat)
@@ -64,68 +54,23 @@ theorem C02_multi_invariant (P : Str → Prop) (child : Option ChildFn) (ctx : C
       · exact hsite a (by simp) st rc hrc l hl
     · intro a' ha'; exact hsite a' (List.mem_cons_of_mem _ ha')
 
-theorem takeWhile_sep (w rest : Str) (hw : ' ' ∉ w) :
-    (w ++ ' ' :: rest).takeWhile (· != ' ') = w ∧ (w ++ ' ' :: rest).dropWhile (· != ' ') = ' ' :: rest := by
-  induction w with
-  | nil => simp
-  | cons c cs ih =>
-    have hc : c ≠ ' ' := fun e => hw (by simp [e])
-    have hcs : ' ' ∉ cs := fun e => hw (by simp [e])
-    simp [hc, ih hcs]
+/-- an output line `WORD arg` is judged by the argument grammar of `WORD` -/
+theorem C02_line_arg (w : String) (wl content : Str) (hwl : String.ofList wl = w) (hsp : ' ' ∉ wl) :
+    legalLine (wl ++ [' '] ++ content) = legalArg w (some content) := legalLine_arg w wl content hwl hsp
 
-theorem takeWhile_nosep (w : Str) (hw : ' ' ∉ w) :
-    w.takeWhile (· != ' ') = w ∧ w.dropWhile (· != ' ') = [] := by
-  induction w with
-  | nil => simp
-  | cons c cs ih =>
-    have hc : c ≠ ' ' := fun e => hw (by simp [e])
-    have hcs : ' ' ∉ cs := fun e => hw (by simp [e])
-    simp [hc, ih hcs]
-
-/-- the emitted form of one argument -/
-theorem legalLine_arg (w : String) (wl content : Str) (hwl : String.ofList wl = w) (hsp : ' ' ∉ wl) :
-    legalLine (wl ++ [' '] ++ content) = legalArg w (some content) := by
-  have := takeWhile_sep wl content hsp
-  simp only [List.append_assoc, List.singleton_append]
-  simp [legalLine, this.1, this.2, hwl]
-
-theorem legalLine_bare (w : String) (wl : Str) (hwl : String.ofList wl = w) (hsp : ' ' ∉ wl) :
-    legalLine wl = legalArg w none := by
-  have := takeWhile_nosep wl hsp
-  simp [legalLine, this.1, this.2, hwl]
+theorem C02_line_bare (w : String) (wl : Str) (hwl : String.ofList wl = w) (hsp : ' ' ∉ wl) :
+    legalLine wl = legalArg w none := legalLine_bare w wl hwl hsp
 
 /-- DELAY / DEFAULT_DELAY: a verified integer argument prints as a non-negative integer literal -/
 theorem C02_delay_legal (w : String) (hw : w ∈ delayNames) (wl : Str) (hwl : String.ofList wl = w) (hsp : ' ' ∉ wl)
-    (i : Int) (hnn : ¬ i < 0) :
-    legalLine (wl ++ [' '] ++ intToStr i) = true := by
-  rw [legalLine_arg w wl _ hwl hsp, intToStr_nonneg i hnn]
-  have hd := natToStr_digits i.natAbs
-  have hne : (natToStr i.natAbs).isEmpty = false := by
-    cases h : natToStr i.natAbs with
-    | nil => exact absurd h hd.2
-    | cons _ _ => rfl
-  simp only [delayNames, List.mem_cons, List.mem_nil_iff, or_false] at hw
-  rcases hw with rfl | rfl | rfl <;> simp [legalArg, noArgKeys, modifiers, delayNames, hne, hd.1]
+    (i : Int) (hnn : ¬ i < 0) : legalLine (wl ++ [' '] ++ intToStr i) = true := delay_legal w hw wl hwl hsp i hnn
 
-/-- the hook of DELAY / DEFAULT_DELAY accepts exactly the non-negative integers -/
 theorem C02_delay_hook (c : ClsDesc) (hc : c.cname = "Delay" ∨ c.cname = "DefaultDelay") (hh : hasHook c "verify_arg" = true)
     (a : Arg) (hty : typeOk .int a.content = true) (hv : verifyArgHook c a = true) :
-    ∃ i : Int, a.content = .int i ∧ ¬ i < 0 := by
-  cases hcont : a.content with
-  | int i =>
-    refine ⟨i, rfl, ?_⟩
-    unfold verifyArgHook at hv
-    rcases hc with h | h <;> simp [hh, h, hcont] at hv <;> omega
-  | flt m k => simp [typeOk, hcont] at hty
-  | str s => simp [typeOk, hcont] at hty
-  | bool b => simp [typeOk, hcont] at hty
-  | list l => simp [typeOk, hcont] at hty
+    ∃ i : Int, a.content = .int i ∧ ¬ i < 0 := delay_hook c hc hh a hty hv
 
-/-- keys that take no argument emit the bare name -/
 theorem C02_noarg_legal (w : String) (hw : w ∈ noArgKeys) (wl : Str) (hwl : String.ofList wl = w) (hsp : ' ' ∉ wl) :
-    legalLine wl = true := by
-  rw [legalLine_bare w wl hwl hsp]
-  simp [legalArg, hw]
+    legalLine wl = true := noarg_legal w hw wl hwl hsp
 
 /-- modifier + argument accepted by the hook: one character or a documented key.  `s` is what CTRL and
     SHIFT emit (as written), `upper s` what ALT emits for a key name. -/
@@ -135,55 +80,8 @@ theorem C02_modifier_legal (c : ClsDesc) (hmem : c ∈ Generated.palette)
     (w : String) (hw : w ∈ c.names) (wl : Str) (hwl : String.ofList wl = w) (hsp : ' ' ∉ wl)
     (a : Arg) (s : Str) (hs : a.content = .str s) (hv : verifyArgHook c a = true) :
     legalLine (wl ++ [' '] ++ s) = true ∧
-    ((paramsOf c).contains (upper s) = true → legalLine (wl ++ [' '] ++ upper s) = true) := by
-  rw [legalLine_arg w wl _ hwl hsp, legalLine_arg w wl _ hwl hsp]
-  have hstr : a.str = s := by simp [Arg.str, hs]
-  -- a listed key (upper-cased) is a fixed point of `upper`
-  have key_fix : ∀ ks : List String, (∀ k ∈ ks, k ∈ altKeys ++ ctrlKeys ++ shiftKeys) →
-      (∀ k ∈ c.params, k ∈ ks) → (paramsOf c).contains (upper s) = true →
-      String.ofList (upper s) ∈ ks ∧ String.ofList (upper (upper s)) ∈ ks := by
-    intro ks hsub hk hin
-    simp only [paramsOf, List.contains_iff_mem, List.mem_map] at hin
-    obtain ⟨k, hk1, hk2⟩ := hin
-    have hkk := hk k hk1
-    have hfix := keys_are_upper k (hsub k hkk)
-    rw [← hk2, hfix]
-    simpa using hkk
-  rcases hc with h | h | h
-  · have hcov := List.all_eq_true.mp C02_spec_covers_code.1 c hmem
-    simp only [h, bne_self_eq_false, Bool.false_or, Bool.and_eq_true, beq_iff_eq, List.all_eq_true, List.contains_iff_mem] at hcov
-    obtain ⟨hn, hk⟩ := hcov
-    rw [hn] at hw; simp at hw; subst hw
-    have kf := key_fix altKeys (by intro k hk; simp [hk]) hk
-    unfold verifyArgHook at hv
-    simp only [hh, Bool.not_true, Bool.false_eq_true, if_false, h, hstr, Bool.or_eq_true, decide_eq_true_eq] at hv
-    constructor
-    · rcases hv with hv | hv
-      · simp [legalArg, noArgKeys, modifiers, (kf hv).1]
-      · simp [legalArg, noArgKeys, modifiers, hv]
-    · intro hin; simp [legalArg, noArgKeys, modifiers, (kf hin).2]
-  · have hcov := List.all_eq_true.mp C02_spec_covers_code.2.1 c hmem
-    simp only [h, bne_self_eq_false, Bool.false_or, Bool.and_eq_true, beq_iff_eq, List.all_eq_true, List.contains_iff_mem] at hcov
-    obtain ⟨hn, hk⟩ := hcov
-    rw [hn] at hw; simp at hw
-    have kf := key_fix ctrlKeys (by intro k hk; simp [hk]) hk
-    unfold verifyArgHook at hv
-    simp only [hh, Bool.not_true, Bool.false_eq_true, if_false, h, hstr, Bool.or_eq_true, decide_eq_true_eq] at hv
-    constructor
-    · rcases hv with hv | hv
-      · rcases hw with rfl | rfl <;> simp [legalArg, noArgKeys, modifiers, (kf hv).1]
-      · rcases hw with rfl | rfl <;> simp [legalArg, noArgKeys, modifiers, hv]
-    · intro hin; rcases hw with rfl | rfl <;> simp [legalArg, noArgKeys, modifiers, (kf hin).2]
-  · have hcov := List.all_eq_true.mp C02_spec_covers_code.2.2.1 c hmem
-    simp only [h, bne_self_eq_false, Bool.false_or, Bool.and_eq_true, beq_iff_eq, List.all_eq_true, List.contains_iff_mem] at hcov
-    obtain ⟨hn, hk⟩ := hcov
-    rw [hn] at hw; simp at hw; subst hw
-    have kf := key_fix shiftKeys (by intro k hk; simp [hk]) hk
-    unfold verifyArgHook at hv
-    simp only [hh, Bool.not_true, Bool.false_eq_true, if_false, h, hstr] at hv
-    constructor
-    · simp [legalArg, noArgKeys, modifiers, (kf hv).1]
-    · intro hin; simp [legalArg, noArgKeys, modifiers, (kf hin).2]
+    ((paramsOf c).contains (upper s) = true → legalLine (wl ++ [' '] ++ upper s) = true) :=
+  modifier_legal c hmem hc hh w hw wl hwl hsp a s hs hv
 
 /-- table check used by the class-level theorem -/
 def delayClassOk : Bool :=
@@ -228,7 +126,7 @@ theorem C02_delay_class (child : Option ChildFn) (ctx : Ctx) (c : ClsDesc) (hmem
   obtain ⟨a0, ha0, rfl⟩ := ha
   obtain ⟨hty0, _, hv0⟩ := hargs a0 ha0
   rw [hty] at hty0
-  obtain ⟨i, hi, hnn⟩ := C02_delay_hook c hc (by simp [hasHook, hva]) a0 hty0 hv0
+  obtain ⟨i, hi, hnn⟩ := delay_hook c hc (by simp [hasHook, hva]) a0 hty0 hv0
   rw [hfmt] at hrc
   have hnr : (c.cname == "Run") = false := by rcases hc with h | h <;> simp [h]
   have hns : (c.cname == "Start") = false := by rcases hc with h | h <;> simp [h]
@@ -242,7 +140,7 @@ theorem C02_delay_class (child : Option ChildFn) (ctx : Ctx) (c : ClsDesc) (hmem
     · cases hls
       simp only [List.mem_singleton] at hl
       subst hl
-      exact C02_delay_legal _ hw_delay (upper (nameOf word)) rfl hsp i hnn
+      exact delay_legal _ hw_delay (upper (nameOf word)) rfl hsp i hnn
   -- what `run_compile` hands back when it goes through `defaultEmit`
   have hvia : ∀ (stx' : St), (defaultEmit (nameOf word) (some a0) >>= fun ls => (R.ok { st := stx', out := ls, sig := some Sig.normal } : R RC)) = .ok rc →
       ∀ l ∈ rc.out, legalLine l = true := by
@@ -263,5 +161,58 @@ theorem C02_delay_class (child : Option ChildFn) (ctx : Ctx) (c : ClsDesc) (hmem
       split at hrc
       · simp [raise] at hrc
       · exact hvia _ hrc l hl
+
+
+/-- **every simple command, every delivery form**: whatever line a command of the palette — or an unknown command passed
+    through — emits by itself (inline, grouped, first argument + group, `$`-evaluated from any expression: variables,
+    parameters and loop counters included) is a legal line of the documented language -/
+theorem C02_every_emission_legal (ctx : Ctx) (content word : Str) (arg : Option Str) (block : Option (List Node)) (cl : ClsDesc)
+    (hsplit : splitWs1 content = some (word, arg))
+    (hd : (dispatch word (hasBlockOf block) = some cl ∧ cl.isBlock = false) ∨
+          (dispatch word (hasBlockOf block) = none ∧ cl = Generated.generic))
+    (line : Nat) (st : St) (name : Str) (items : List (Option Arg)) (st' : St)
+    (hpre : simplePre ctx cl word line arg block st = .ok (name, items, st'))
+    (a : Option Arg) (ha : a ∈ items) (st2 : St) (rc : RC) (hrc : runCompileLocal ctx cl name line a st2 = .ok rc) :
+    ∀ l ∈ rc.out, legalLine l = true :=
+  emit_legal ctx content word arg block cl hsplit hd line st name items st' hpre a ha st2 rc hrc
+
+/-- **whole programs**: if no command line of the code that can run — the program, the bodies of the functions already in the
+    environment, the files on disk — is an IGNORE line (or blank), then for EVERY depth, context and state every output line
+    of a successful run is legal -/
+theorem C02_exec_output_legal (d : Nat) (nodes : List Node) (ctx : Ctx) (st : St) (o : Out)
+    (hnodes : allLinesL noIgnoreLine nodes = true) (hst : StOk noIgnoreLine st) (hfs : FSOk noIgnoreLine ctx.fs)
+    (h : exec d nodes ctx st = .ok o) : ∀ l ∈ o.out, legalLine l = true :=
+  (exec_hereditary hspec_legal d nodes ctx st hnodes hst hfs).outs o h
+
+/-- `Compiler.compile`: a program without IGNORE lines (in the source and in the files it can import) compiles to legal lines only -/
+theorem C02_compile_output_legal (opts : Opts) (fs : FS) (file : Option Path) (src : Source)
+    (out : List Str) (warns : List Warn) (prints : List Print) (vars : List (Str × Val))
+    (hsrc : ∀ nodes, prepare src = .ok nodes → allLinesL noIgnoreLine nodes = true) (hfs : FSOk noIgnoreLine fs)
+    (h : compile opts fs file src = .ok out warns prints vars) : ∀ l ∈ out, legalLine l = true := by
+  unfold compile at h
+  split at h
+  · cases h
+  · cases h
+  · rename_i nodes hn
+    simp only [] at h
+    split at h
+    · rename_i r hr
+      simp only [Result.ok.injEq] at h
+      obtain ⟨rfl, _, _, _⟩ := h
+      refine C02_exec_output_legal _ nodes _ _ r (hsrc nodes hn) ?_ hfs hr
+      intro c hc
+      unfold initEnv at hc
+      split at hc <;> simp [St.codes] at hc
+    · cases h
+    · cases h
+    · cases h
+
+/-- non-vacuity: a program with a function, a loop and validated commands satisfies the hypothesis -/
+example : allLinesL noIgnoreLine
+    [.line ⟨"FUNC f p".toList, 1⟩, .block [.line ⟨"$DELAY p".toList, 2⟩], .line ⟨"REPEAT 2".toList, 3⟩,
+     .block [.line ⟨"RUN f 5".toList, 4⟩, .line ⟨"ctrl esc".toList, 5⟩]] = true := by decide
+
+/-- an IGNORE line does not -/
+example : allLinesL noIgnoreLine [.line ⟨"ignore".toList, 1⟩, .block [.line ⟨"DELAY x".toList, 2⟩]] = false := by decide
 
 end Duckling.Props.C02
